@@ -23,6 +23,19 @@ func (s *Sim) registered() int { return len(ecs.ComponentIDs(s.W)) }
 func (s *Sim) opRegistry(op *Op) {
 	s.C.Checks["reg."+op.M]++
 	max := MaxComponentTypes()
+	if s.Prof.Tiny {
+		// histories that must stay within 64 component types in every build (C20)
+		if max > 64 {
+			if op.M == "overflow" || (op.M == "locked" && s.registered() >= 64) || op.M == "use" {
+				s.skip(op)
+				return
+			}
+			max = 64
+		} else if op.M == "overflow" || op.M == "use" || (op.M == "locked" && s.registered() >= 64) {
+			s.skip(op)
+			return
+		}
+	}
 	switch op.M {
 	case "fill":
 		// register up to n further dynamic types; IDs must be sequential
@@ -34,6 +47,21 @@ func (s *Sim) opRegistry(op *Op) {
 			s.skip(op)
 			return
 		}
+		// mappers that exist before further types are registered must stay usable afterwards
+		tmaxU := 0
+		for t := 1; t < NumTypes; t++ {
+			if s.ids[t].Index() > s.ids[tmaxU].Index() {
+				tmaxU = t
+			}
+		}
+		s.mapper(tmaxU)
+		s.mapper(2)
+		startCount := s.registered()
+		defer func() {
+			if s.registered() > startCount && !s.fatal && !s.locked() {
+				s.useAfterRegistration(tmaxU, op)
+			}
+		}()
 		for i := 0; i < n && s.registered() < max; i++ {
 			want := s.registered()
 			k := len(s.pads)
@@ -236,4 +264,35 @@ func init() {
 		idCache[i] = ecs.TypeID(w, PadType(5000+i))
 	}
 	_ = fmt.Sprint
+}
+
+// useAfterRegistration: after further component types were registered, an entity in a
+// new archetype is created and read through mappers that existed before (C18 reg.capacity).
+func (s *Sim) useAfterRegistration(tmax int, op *Op) {
+	cs := []int{tmax}
+	other := abs(op.N+7) % NumTypes
+	if other != tmax && !U[other].IsRel && !U[tmax].IsRel {
+		cs = append(cs, other)
+	}
+	n := len(s.M.Ents)
+	sub := Op{K: KNewEntity, P: PUnsafe, Cs: cs, Ts: []int{-1}, RS: RSID, Vs: []uint64{uint64(abs(op.N))*2 + 3, 79}}
+	p, val := s.call(func() { s.opNewEntity(&sub) })
+	if p || s.fatal || len(s.M.Ents) != n+1 {
+		s.violate("C18", "reg.capacity", "after_fill/create", true, "after registering further component types (%d registered), creating an entity with component ID %d failed: %v", s.registered(), s.ids[tmax].Index(), val)
+		return
+	}
+	e := s.M.Ents[n]
+	s.C.Checks["reg.capacity.after_fill"]++
+	p, val = s.call(func() {
+		u := s.W.Unsafe()
+		for _, c := range cs {
+			ptrs := s.mapper(c).Get(e.H)
+			if ptrs[0] != u.Get(e.H, s.ids[c]) {
+				panic(fmt.Sprintf("Map.Get for component ID %d returns %x, Unsafe.Get %x", s.ids[c].Index(), ptrOf(ptrs[0]), ptrOf(u.Get(e.H, s.ids[c]))))
+			}
+		}
+	})
+	if p {
+		s.violate("C18", "reg.capacity", "after_fill/use", true, "after registering further component types (%d registered), a mapper created before cannot access a new entity: %v", s.registered(), val)
+	}
 }
